@@ -34,6 +34,11 @@ func inc(dec string) string {
 
 // one checks a single (major, base, time, rev); returns the pseudo-version and a message.
 func one(major, base string, t time.Time, rev string) (pv string, msg string) {
+	defer func() {
+		if e := recover(); e != nil {
+			msg = fmt.Sprintf("panic for base %q time %v rev %q (pseudo-version %q): %v", base, t, rev, pv, e)
+		}
+	}()
 	pv = module.PseudoVersion(major, base, t, rev)
 	rb := semverref.Parse(base)
 	if !semverref.Parse(pv).Valid || !semver.IsValid(pv) {
@@ -99,7 +104,7 @@ func bases(thorough bool) []string {
 	minors := []string{"0", "1", "9", "10"}
 	patches := []string{"0", "1", "8", "9", "10", "99", "199", "999", "18446744073709551615", "99999999999999999999", "100000000000000000000"}
 	pres := []string{"", "-0", "-1", "-a", "-B", "-a.0", "-0.a", "-a-b", "-9", "-10", "-pre", "-pre.1", "--", "-0-0", "-0.0", "-rc.0.1", "-0.20190101000000-abcdefabcdef", "-pre.0.20190101000000-abcdefabcdef"}
-	builds := []string{"", "+incompatible", "+a", "+meta.1", "+0", "+incompatible.x"}
+	builds := []string{"", "+incompatible", "+a", "+meta.1", "+0", "+incompatible.x", "+meta-data", "+x-", "+a-b.5-c"}
 	if !thorough {
 		majors = []string{"0", "1", "2", "10"}
 		minors = []string{"0", "9"}
